@@ -1,5 +1,6 @@
 import Cvise.Proofs.DriverAccept
 import Cvise.Proofs.DriverLimits
+import Cvise.Proofs.DriverGate
 /-!
 # C16 — run limits are honoured (decision logic in the L1/L2 model)
 -/
@@ -56,5 +57,112 @@ theorem accepts_at_most_limit [Inhabited σ] [Inhabited C] (cfg : Cfg) (W : Worl
     (k fuel rid : Nat) (x : St C) (before : C) (n : Nat) (hn : 1 ≤ n) (hl : cfg.skipN = some n ∨ P.maxT = some n) :
     (commits (LRes.st' (newLoop cfg W dn P k fuel rid x before)).side.log).length ≤ (commits x.side.log).length + n :=
   newLoop_commits_le cfg W dn P k fuel rid x before n hn hl
+
+/-! ### `--start-with-pass` (the gate of `run_pass`, `D.runPassG` … `D.reduceG`) -/
+section gate
+variable [Inhabited σ] [Inhabited C]
+
+/-- **passes before `--start-with-pass` are not run**: while the option is pending, running any list of passes none of
+    which is the named one (or whose named entry lacks its prerequisites, `avail`) changes *nothing* — the files, the replay
+    table, the statistics, the log (no candidate started, no commit, no replay) and even the round counter are what they
+    were, and the option stays pending.  For every configuration, test, schedule and pass behaviour. -/
+theorem start_gate_skips (cfg : Cfg) (W : World C) (dn : Sched) (orderOf : List C → List Nat) (fuel : Nat) (avail : PassI C σ → Bool)
+    (n : Nat) (ps : List (PassI C σ)) (x : St C) (rid : Nat) (h : NoneNamed avail n ps) :
+    runPassesG cfg W dn orderOf fuel avail ps (.inl (x, rid), some n) = (.inl (x, rid), some n) :=
+  runPassesG_skip cfg W dn orderOf fuel avail n ps x rid h
+
+/-- … the same for the main loop, however many rounds it may take -/
+theorem start_gate_skips_main (cfg : Cfg) (W : World C) (dn : Sched) (orderOf : List C → List Nat) (fuel : Nat) (avail : PassI C σ → Bool)
+    (n : Nat) (ps : List (PassI C σ)) (h : NoneNamed avail n ps) (rounds : Nat) (x : St C) (rid : Nat) :
+    mainLoopG cfg W dn orderOf fuel avail ps rounds (.inl (x, rid), some n) = (.inl (x, rid), some n) :=
+  mainLoopG_skip cfg W dn orderOf fuel avail n ps h rounds x rid
+
+/-- **the option clears exactly at the first pass with the named key** (whose prerequisites are there): everything in
+    front of it is skipped, it and everything after it run as in a run without the option -/
+theorem start_gate_clears_at_named (cfg : Cfg) (W : World C) (dn : Sched) (orderOf : List C → List Nat) (fuel : Nat)
+    (avail : PassI C σ → Bool) (n : Nat) (pre post : List (PassI C σ)) (P : PassI C σ) (x : St C) (rid : Nat)
+    (hpre : NoneNamed avail n pre) (ha : avail P = true) (hk : P.key = n) :
+    runPassesG cfg W dn orderOf fuel avail (pre ++ P :: post) (.inl (x, rid), some n) =
+      (runPasses cfg W dn orderOf fuel (P :: post.filter avail) (.inl (x, rid)), none) :=
+  runPassesG_hit cfg W dn orderOf fuel avail n pre post P x rid hpre ha hk
+
+/-- whole reductions, named pass in the first group: the reduction is the plain one that starts at the named pass -/
+theorem reduce_starts_at_named_first (cfg : Cfg) (W : World C) (dn : Sched) (orderOf : List C → List Nat) (fuel : Nat)
+    (avail : PassI C σ → Bool) (n : Nat) (pre post main last : List (PassI C σ)) (P : PassI C σ) (x : St C)
+    (hpre : NoneNamed avail n pre) (ha : avail P = true) (hk : P.key = n) :
+    reduceG cfg W dn orderOf fuel avail false (pre ++ P :: post) main last x (some n) =
+      (reduce cfg W dn orderOf fuel (P :: post.filter avail) (main.filter avail) (last.filter avail) x, none) := by
+  simp only [reduceG, reduce, Bool.false_eq_true, if_false]
+  rw [runPassesG_hit cfg W dn orderOf fuel avail n pre post P x 0 hpre ha hk, mainLoopG_none, runPassesG_none]
+
+/-- named pass in the last group only: the first and main groups do nothing, the last group runs from the named pass on -/
+theorem reduce_starts_at_named_last (cfg : Cfg) (W : World C) (dn : Sched) (orderOf : List C → List Nat) (fuel : Nat)
+    (avail : PassI C σ → Bool) (n : Nat) (first main pre post : List (PassI C σ)) (P : PassI C σ) (x : St C)
+    (hf : NoneNamed avail n first) (hm : NoneNamed avail n main)
+    (hpre : NoneNamed avail n pre) (ha : avail P = true) (hk : P.key = n) :
+    reduceG cfg W dn orderOf fuel avail false first main (pre ++ P :: post) x (some n) =
+      (runPasses cfg W dn orderOf fuel (P :: post.filter avail) (.inl (x, 0)), none) := by
+  simp only [reduceG, Bool.false_eq_true, if_false]
+  rw [runPassesG_skip cfg W dn orderOf fuel avail n first x 0 hf, mainLoopG_skip cfg W dn orderOf fuel avail n main hm,
+    runPassesG_hit cfg W dn orderOf fuel avail n pre post P x 0 hpre ha hk]
+
+/-- a name that no runnable pass carries (e.g. the named pass lacks its external program): **nothing** runs -/
+theorem reduce_named_absent (cfg : Cfg) (W : World C) (dn : Sched) (orderOf : List C → List Nat) (fuel : Nat)
+    (avail : PassI C σ → Bool) (n : Nat) (skip : Bool) (first main last : List (PassI C σ)) (x : St C)
+    (hf : NoneNamed avail n first) (hm : NoneNamed avail n main) (hl : NoneNamed avail n last) :
+    reduceG cfg W dn orderOf fuel avail skip first main last x (some n) = (.inl (x, 0), some n) := by
+  cases skip
+  · simp only [reduceG, Bool.false_eq_true, if_false]
+    rw [runPassesG_skip cfg W dn orderOf fuel avail n first x 0 hf, mainLoopG_skip cfg W dn orderOf fuel avail n main hm,
+      runPassesG_skip cfg W dn orderOf fuel avail n last x 0 hl]
+  · simp only [reduceG, if_true]
+    rw [mainLoopG_skip cfg W dn orderOf fuel avail n main hm, runPassesG_skip cfg W dn orderOf fuel avail n last x 0 hl]
+
+/-- named pass in the main group: the first round of the main loop runs from the named pass on; if it made progress
+    the later rounds run the whole group -/
+theorem main_loop_starts_at_named (cfg : Cfg) (W : World C) (dn : Sched) (orderOf : List C → List Nat) (fuel : Nat)
+    (avail : PassI C σ → Bool) (n : Nat) (pre post : List (PassI C σ)) (P : PassI C σ) (x : St C) (rid rounds : Nat)
+    (hpre : NoneNamed avail n pre) (ha : avail P = true) (hk : P.key = n) (h0 : totalSize W.size x.disk ≠ 0) :
+    mainLoopG cfg W dn orderOf fuel avail (pre ++ P :: post) (rounds + 1) (.inl (x, rid), some n) =
+      (match runPasses cfg W dn orderOf fuel (P :: post.filter avail) (.inl (x, rid)) with
+       | .inr e => .inr e
+       | .inl (y, rid') =>
+         if totalSize W.size y.disk ≥ totalSize W.size x.disk then .inl (y, rid')
+         else mainLoop cfg W dn orderOf fuel ((pre ++ P :: post).filter avail) rounds (.inl (y, rid')), none) :=
+  mainLoopG_hit cfg W dn orderOf fuel avail n pre post P x rid rounds hpre ha hk h0
+
+/-- without the option the gated driver is the plain driver (over the passes whose prerequisites are there), so every
+    theorem about `D.reduce` speaks about it -/
+theorem no_option_is_plain_reduce (cfg : Cfg) (W : World C) (dn : Sched) (orderOf : List C → List Nat) (fuel : Nat)
+    (avail : PassI C σ → Bool) (first main last : List (PassI C σ)) (x : St C) :
+    reduceG cfg W dn orderOf fuel avail false first main last x none =
+      (reduce cfg W dn orderOf fuel (first.filter avail) (main.filter avail) (last.filter avail) x, none) :=
+  reduceG_none cfg W dn orderOf fuel avail first main last x
+
+/-- non-vacuity: a two-pass first group, option naming the second pass; the first pass (which would empty the file) is
+    skipped, the second one runs -/
+def gA : PassI Nat Nat where
+  key := 1
+  maxT := none
+  new := fun _ => some 0
+  advance := fun _ _ => none
+  aos := fun _ _ => none
+  transform := fun _ s => (.ok, 0, s)
+def gB : PassI Nat Nat where
+  key := 2
+  maxT := none
+  new := fun _ => some 0
+  advance := fun _ _ => none
+  aos := fun _ _ => none
+  transform := fun c s => (.ok, c - 1, s)
+def gW : World Nat where
+  size := fun c => c
+  test := fun j => if j = [4] then .code 0 else .code 1
+  fault := fun _ _ => none
+example : (LRes.st' (reduceG {} gW (fun _ _ _ => true) (fun _ => [0]) 5 (fun _ => true) false [gA, gB] [] [] { disk := [5] } (some 2)).1).disk = [4] := by
+  decide
+example : NoneNamed (fun _ => true) 2 [gA] := by intro P hP _; simp at hP; subst hP; decide
+
+end gate
 
 end Cvise.C16
